@@ -45,7 +45,7 @@ CLAIMED = {
          "Trusted: go/ssa, gse semantics incl. its model of sync (Mutex, RWMutex, WaitGroup, channels), z3. Races / deadlocks are reported only when the native replay (40 runs with real goroutines under the Go race detector / hang watchdog) confirms them; others are listed as unconfirmed.",
          "DESIGN.md §0.3, §4 C09", "bounded-schedule symbolic execution with happens-before race detection; native confirmation under go test -race"),
  "C07": ("Bounded model checking of the send paths: Session.arpRequest, ICMPv4/ICMPv6 echo, NDP NS/NA/RS/RA and the ARP handler's request/reply/probe/announcement functions (plus every frame emitted along the C13 harnesses) are executed symbolically with all arguments symbolic against a recording connection; each recorded frame must be complete, length-consistent, carry the requested addresses and fields, be sourced from the host NIC MAC, use hop limit 255 for link-local NDP and the 33:33 MAC where the library picks a multicast destination; IPv4 header and ICMPv4 checksums verify under an independent big-endian sum; ICMPv6 checksums by a structural obligation over an uninterpreted Checksum (C15 supplies Checksum == RFC 1071).",
-         "Trusted: go/ssa, gse semantics, z3/cvc5, reference checks in harness/root/c07_send.go, the C15 result. Not covered: frames of the DHCP, ICMPv6-spoofing and naming handlers.",
+         "Trusted: go/ssa, gse semantics, z3/cvc5, reference checks in harness/root/c07_send.go, the C15 result. Also covered: the frames emitted along the C11 (DHCP replies), C14 (NA spoofing) harnesses and the naming handler queries (NBNS, mDNS, LLMNR, SSDP). Not covered: DHCP client-side frames towards the real server, UDP checksums.",
          "DESIGN.md §4 C07", "bounded symbolic execution with a recording connection, SMT-decided reference decoding and checksum obligations"),
  "C13": ("Bounded model checking of the real ARP handler on a real Session (NewSession with a recording connection): for every valid ARP frame, every hunt list of <= 2 entries and every DHCP-offer state the frames emitted by ProcessPacket are exactly the specified router-spoof reply (asker hunted and asking for the router) or probe reject (different outstanding offer, probed address in the home LAN), else nothing; StartHunt rejects nil MAC / non-IPv4, is idempotent per MAC and starts one loop; StopHunt removes exactly that MAC; the spoof loop sends forged announcements only to hunted MACs, stops within one iteration after StopHunt with exactly one corrective request carrying the router's real MAC, and sends nothing after Close.",
          "Trusted: go/ssa, gse semantics (sequential: StopHunt/Close delivered at iteration boundaries, ticker arm always enabled), z3. Wall-clock period outside the claim.",
